@@ -142,8 +142,15 @@ def run_dmrg(spec):
         reach = [g for g in groups if g[1] > 1e-10]
         Econn = reach[0][0]
         gap = (reach[1][0] - Econn) if len(reach) > 1 else np.inf
-        conv_class = (not single and mixer is not None and not truncating and spec['max_sweeps'] >= 30 and spec['diag'] in ('default', 'lanczos', 'ED_block', 'arpack')
-                      and gap >= 1e-3 * nH and spec['E_shift'] is None)
+        # the declared charges have to exhaust the symmetries that are diagonal in the product basis (sector-connected H): otherwise the
+        # local eigensolver may move the state into another hidden sector (e.g. another particle number with conserve='parity'),
+        # where an exact product eigenstate (completely filled chain) is a fixed point that no mixer built from H can leave
+        from scipy.sparse.csgraph import connected_components
+        ncomp = connected_components(np.abs(Hs) > 1e-12, directed=False)[0]
+        # (single-site DMRG with a mixer is included although the property only names the two-site engine: on these sizes it converges
+        # as well, and it is the engine that depends on the mixer alone - finding F87 shows up there in a connected sector)
+        conv_class = (mixer is not None and not truncating and spec['max_sweeps'] >= 30 and spec['diag'] in ('default', 'lanczos', 'ED_block', 'arpack')
+                      and gap >= 1e-3 * nH and spec['E_shift'] is None and ncomp == 1)
         classes = ['engine:' + spec['engine'], 'mixer:%s' % mixer, 'diag:' + spec['diag'], 'sector-dim:%s' % ('1' if m == 1 else '2' if m == 2 else '>=3')]
         if conv_class:
             require(EH - Econn <= 1e-7 * max(1., abs(Econn)), 'not-converged', '<psi|H|psi> - E0 = %r after %d sweeps (gap %r, sector dimension %d)' % (EH - Econn, eng.sweeps, gap, m), **tags)
